@@ -128,7 +128,7 @@ def check_case(ctx, case):
                 ctx.violation("unequal_expressions_print_identically", f"{S.show(s)[:200]} and {S.show(other)[:200]} both print as {repr(e)[:200]!r}")
             ctx.count("sibling_print_comparisons")
     # derivative objects print as their constructor applied to the printed expression
-    if not C.varfree_in_scope(s) or S.size(s) > 14:
+    if not C.tree_in_scope(s) or S.size(s) > 14:
         return
     names = sorted(S.variables(s))
     er = repr(e)
